@@ -26,6 +26,7 @@ import (
 	"runtime/debug"
 	"runtime/pprof"
 	"sort"
+	"strings"
 	"sync"
 	"sync/atomic"
 	"syscall"
@@ -391,6 +392,179 @@ func (d *drv) levelB(in *inst, chunks []*filer_pb.FileChunk, variant string, use
 	}
 }
 
+// ---- level F: one reused ChunkReadAt across transient chunk-fetch failures ----------------
+
+// injectedMark is carried by every error the harness injects: a read that fails with it
+// failed because of the injected fault (no verdict), any other error is the reader's own.
+const injectedMark = "verif-injected-lookup-failure"
+
+// faultyLookup is the lookup function of the level-F reader: file ids in down have no
+// location at the moment (volume not known to the master / filer), everything else
+// resolves to the blob server. Prefetch goroutines of the reader call it concurrently.
+type faultyLookup struct {
+	mu       sync.Mutex
+	down     map[string]bool
+	bs       *lib.BlobServer
+	injected int64
+}
+
+func (f *faultyLookup) set(fids ...string) {
+	f.mu.Lock()
+	f.down = make(map[string]bool)
+	for _, x := range fids {
+		f.down[x] = true
+	}
+	f.mu.Unlock()
+}
+
+func (f *faultyLookup) lookup(fid string) ([]string, error) {
+	f.mu.Lock()
+	dn := f.down[fid]
+	f.mu.Unlock()
+	if dn {
+		atomic.AddInt64(&f.injected, 1)
+		return nil, fmt.Errorf("%s: no location for %s", injectedMark, fid)
+	}
+	return f.bs.Lookup(fid)
+}
+
+// levelF keeps ONE ChunkReadAt (no chunk cache, so every chunk switch is a fetch) over
+// the whole file and drives it the way a mount / WebDAV handle is driven when a volume
+// is briefly unreachable: read inside chunk view A; make the chunk of another view B
+// unresolvable and read a window touching B (expected to fail with the injected error);
+// clear the fault and retry the same window, then another window on B, finally the
+// whole file. Oracle: every ReadAt that reports success (nil / io.EOF) — under the
+// fault or after it — returns exactly the overlay bytes; a read that fails with the
+// injected error gives no verdict; with no fault active any other error is a read-error
+// as in level B. What a failed read leaves in the buffer is not judged.
+func (d *drv) levelF(in *inst, chunks []*filer_pb.FileChunk, variant string, rng *rand.Rand, pairs int) {
+	defer since(&tB, time.Now())
+	views := filer.ViewFromChunks(d.bs.Lookup, chunks, 0, math.MaxInt64)
+	distinct := map[string]bool{}
+	for _, v := range views {
+		distinct[v.FileId] = true
+	}
+	if len(distinct) < 2 {
+		return
+	}
+	d.serve(in)
+	d.r.Count("lists_level_F", 1)
+	fl := &faultyLookup{bs: d.bs, down: map[string]bool{}}
+	var none *chunk_cache.TieredChunkCache
+	rd := filer.NewChunkReaderAtFromClient(fl.lookup, views, none, in.c.FileSize)
+	defer rd.Close()
+
+	// read returns 1 when the read succeeded (and was judged), 0 when it failed with the injected error, -1 on a violation
+	read := func(step string, a, b int64) int {
+		wantN := b
+		if wantN > in.c.FileSize {
+			wantN = in.c.FileSize
+		}
+		wantN -= a
+		if wantN < 0 {
+			wantN = 0
+		}
+		want := in.want(a, a+wantN)
+		p := make([]byte, b-a)
+		for i := range p {
+			p[i] = prefill
+		}
+		n, err := rd.ReadAt(p, a)
+		d.r.Eval(1)
+		d.r.Count("F_ReadAt_calls", 1)
+		sig := lib.Sig{"reader": "ReadAt", "variant": variant, "cache": "none", "buffer": "prefilled", "sequence": "reused-reader-" + step}
+		if err != nil && err != io.EOF {
+			if strings.Contains(err.Error(), injectedMark) {
+				d.r.Count("F_reads_failed_by_injected_fault", 1)
+				return 0
+			}
+			sig["class"] = "read-error"
+			d.r.Violation(sig, d.detail(in, variant, a, b, want, nil, map[string]interface{}{"err": err.Error(), "step": step}))
+			return -1
+		}
+		if int64(n) != wantN {
+			sig["class"] = "length-differs"
+			d.r.Violation(sig, d.detail(in, variant, a, b, want, p[:imin(n, len(p))], map[string]interface{}{"n": n, "want_n": wantN, "step": step}))
+			return -1
+		}
+		if !bytes.Equal(p[:n], want) {
+			sig["class"] = "data-differs"
+			d.r.Violation(sig, d.detail(in, variant, a, b, want, p[:n], map[string]interface{}{"step": step}))
+			return -1
+		}
+		return 1
+	}
+	// settled repeats a read made with no fault active while it still fails with the injected
+	// error (a prefetch goroutine started under the fault may still be in flight and be joined)
+	settled := func(step string, a, b int64) int {
+		for try := 0; try < 4; try++ {
+			if res := read(step, a, b); res != 0 {
+				return res
+			}
+			d.r.Count("F_fault_free_reads_hit_by_late_prefetch_failure", 1)
+		}
+		return 0
+	}
+	inside := func(v *filer.ChunkView) (int64, int64) {
+		a := v.LogicOffset + rng.Int63n(int64(v.Size))
+		b := a + 1 + rng.Int63n(v.LogicOffset+int64(v.Size)-a)
+		switch rng.Intn(3) {
+		case 0:
+			a, b = v.LogicOffset, v.LogicOffset+int64(v.Size)
+		case 1: // reaches back into what precedes the view (another view or a hole)
+			if a -= int64(rng.Intn(4)); a < 0 {
+				a = 0
+			}
+		}
+		return a, b
+	}
+	for k := 0; k < pairs; k++ {
+		va := views[rng.Intn(len(views))]
+		vb := views[rng.Intn(len(views))]
+		for try := 0; vb.FileId == va.FileId && try < 16; try++ {
+			vb = views[rng.Intn(len(views))]
+		}
+		if vb.FileId == va.FileId {
+			continue
+		}
+		fl.set()
+		a0, a1 := va.LogicOffset, va.LogicOffset+int64(va.Size)
+		if rng.Intn(2) == 0 {
+			a0, a1 = inside(va)
+		}
+		if settled("read-A", a0, a1) < 0 {
+			return
+		}
+		b0, b1 := inside(vb)
+		fl.set(vb.FileId)
+		failed := 0
+		for i, nFail := 0, 1+rng.Intn(2); i < nFail; i++ {
+			switch read("read-B-under-fault", b0, b1) {
+			case -1:
+				return
+			case 0:
+				failed++
+			default:
+				d.r.Count("F_reads_succeeded_under_fault", 1)
+			}
+		}
+		fl.set()
+		res := settled("retry-B-after-fault", b0, b1)
+		if res < 0 {
+			return
+		}
+		if res == 1 && failed > 0 {
+			d.r.Count("F_retries_judged_after_failed_fetch", 1)
+		}
+		c0, c1 := inside(vb)
+		if settled("reread-B-after-fault", c0, c1) < 0 {
+			return
+		}
+	}
+	fl.set()
+	settled("whole-file-after-faults", 0, in.c.FileSize)
+}
+
 // ---- level C: StreamContent --------------------------------------------------------------
 
 // windows for StreamContent are (offset, size); size may be math.MaxInt64 ("cat").
@@ -698,6 +872,17 @@ func (d *drv) runCase(c *fileCase, pl plan) {
 		}
 		if pl.full {
 			d.levelB(in, cloneChunks(in.chunks), "plain", false, winB)
+		}
+		// one reused reader across transient fetch failures (own PRNG: the other levels keep their draws)
+		hf := sha1.Sum([]byte(fmt.Sprintf("F/%d/%s/%d", c.Seed, c.Kind, c.Index)))
+		rngF := rand.New(rand.NewSource(int64(binary.BigEndian.Uint64(hf[:8]) >> 1)))
+		nPairs := 3
+		if !small || pl.full {
+			nPairs = 8
+		}
+		d.levelF(in, cloneChunks(in.chunks), "plain", rngF, nPairs)
+		if !small && len(compacted) >= 2 {
+			d.levelF(in, compacted, "compacted", rngF, 3)
 		}
 	}
 	if pl.c || pl.full {
@@ -1048,6 +1233,7 @@ func main() {
 	r.Assume("chunk modification times within one list are distinct (for equal mtimes 'newest' is not defined by the statement)")
 	r.Assume("chunk bytes are served by the harness blob server (whole blob, gzip on request, byte ranges) the way a volume server answers")
 	r.Assume("level A interprets chunk views over the chunk data: it trusts that a correct reader copies view bytes to LogicOffset; levels B and C run the real readers on a sample")
+	r.Assume("level F injects faults only as lookup errors of the reader's lookup function (marked); a read failing with the marked error gives no verdict, only reads that report success are compared with the model")
 	r.Assume("StreamContent is not told the file size; with size=MaxInt64 it is expected to end at the end of the last chunk, otherwise windows end within the file size")
 
 	if pf := os.Getenv("VERIF_C17_PROF"); pf != "" { // development aid only
@@ -1194,6 +1380,9 @@ func main() {
 		r.Counter("C_StreamContent_calls") == 0 || r.Counter("manifest_chunks_level1") == 0 || r.Counter("nested_manifest_variants") == 0 ||
 		atomic.LoadInt64(&bs.Requests) == 0 {
 		r.Inconclusive("a reader or variant was never exercised")
+	}
+	if r.Counter("F_retries_judged_after_failed_fetch") == 0 && r.Violations() == 0 {
+		r.Inconclusive("no read on a reused reader was retried and judged after a failed chunk fetch")
 	}
 	pprof.StopCPUProfile()
 	r.Finish(1000)
